@@ -597,6 +597,7 @@ Fixpoint time_rhs (p : list dstmt) (acc : option mexp) : option mexp :=
 Fixpoint time_assigns (p : list dstmt) : list (string * string * mexp * option Z) :=
   match p with
   | [] => []
+  | DSet [e; c; "time"] MEmptyDict :: p' => time_assigns p'      (* the traffic entry of a tensor named "time" *)
   | DSet [e; c; "time"] rhs :: p' =>
       (e, c, match rhs with MDiv x _ => x | _ => rhs end,
        match rhs with MDiv _ (MInt k) => Some k | _ => None end) :: time_assigns p'
@@ -727,6 +728,29 @@ Fixpoint drun_l (env : senv) (st : dstate) (p : list dstmt) : res dstate :=
   | s :: p' => match dstep_l env st s with Ok st' => drun_l env st' p' | Err m => Err m end
   end.
 
+(* the same run, also recording every component time when it is stored (the Einsum's dictionary may be
+   overwritten later, e.g. by metrics["time"] itself for an Einsum named `time`) *)
+Fixpoint drun_log (env : senv) (st : dstate) (p : list dstmt) (log : list (string * string * option Qc))
+  : res (dstate * list (string * string * option Qc)) :=
+  match p with
+  | [] => Ok (st, rev log)
+  | s :: p' =>
+      match dstep_l env st s with
+      | Ok st' =>
+          let log' := match s with
+                      | DSet [e; c; "time"] MEmptyDict => log
+                      | DSet [e; c; "time"] _ =>
+                          (e, c, match d_metrics st' with
+                                 | Some m => match vget m [e; c; "time"] with Some (VNum q) => Some q | _ => None end
+                                 | None => None
+                                 end) :: log
+                      | _ => log
+                      end in
+          drun_log env st' p' log'
+      | Err m => Err m
+      end
+  end.
+
 Definition final_num (st : dstate) (path : list string) : option Qc :=
   match d_metrics st with
   | Some m => match vget m path with Some (VNum q) => Some q | _ => None end
@@ -769,23 +793,23 @@ Definition static_report (a : arch) (blocks : list (list string)) (es : list esp
 Definition run_report (a : arch) (blocks : list (list string)) (es : list espec) (p : list dstmt) (env : senv) : string :=
   let exp_s := oracle_time spec_divisor a env es blocks in
   let exp_c := oracle_time code_divisor a env es blocks in
-  match drun_l env dinit p with
+  match drun_log env dinit p [] with
   | Err m => ("ERR " ++ m ++ "@-@" ++ show_Qc exp_s ++ "@" ++ show_Qc exp_c ++ "@")%string
-  | Ok st =>
+  | Ok (st, log) =>
       String.concat "@"
         [ "OK";
           match final_num st ["time"] with Some q => show_Qc q | None => "-" end;
           show_Qc exp_s; show_Qc exp_c;
           String.concat ";"
             (map (fun t =>
-                    let '(e, c, _, _) := t in
-                    match final_num st [e; c; "time"] with
+                    let '(e, c, oq) := t in
+                    match oq with
                     | Some q => String.concat "," [e; c;
                                   show_bool (Qc_eq_bool q (spec_ctime spec_divisor a env es e c));
                                   show_bool (Qc_eq_bool q (spec_ctime code_divisor a env es e c))]
                     | None => String.concat "," [e; c; "-"; "-"]
                     end)
-                 (time_assigns p)) ]%string
+                 log) ]%string
   end.
 
 Definition c14_report (a : arch) (blocks : list (list string)) (es : list espec) (p : list dstmt) (envs : list senv) : string :=
